@@ -455,3 +455,25 @@ contract(
            "pdb2pqr.inputgen:Input.print_input_files": None},
     name="dump_apbs", native=False,
 )
+
+
+# ====================================================================================================== transform_arguments
+# C04: --assign-only and --clean switch debumping and optimisation off before anything runs (main_driver's own contract
+# takes the transformed namespace from here); nothing else about the run is changed except the case of names.
+contract(
+    "pdb2pqr.main:transform_arguments", ["C04", "C09"],
+    params={"args": Obj("Namespace", assign_only=Bool, clean=Bool, debump=Bool, opt=Bool, userff=OneOf(Const(None), Const("my.DAT")),
+                        ff=OneOf(Const(None), Enum("AMBER", "parse", "Charmm")), ffout=OneOf(Const(None), Enum("AMBER", "charmm")),
+                        whitespace=Bool, keep_chain=Bool, drop_water=Bool, neutraln=Bool, neutralc=Bool, ph=Real)},
+    requires=[],
+    ensures=[
+        "result is args",
+        "implies(old(args.assign_only) or old(args.clean), not args.debump and not args.opt)",
+        "implies(not (old(args.assign_only) or old(args.clean)), args.debump == old(args.debump) and args.opt == old(args.opt))",
+        "implies(args.userff is None and old(args.ff) is not None, args.ff == old(args.ff).lower())",
+        "implies(old(args.ffout) is not None, args.ffout == old(args.ffout).lower())",
+        "args.userff is old(args.userff)",
+    ],
+    modifies=["args.debump", "args.opt", "args.ff", "args.ffout", "args.userff"],
+    name="transform_arguments", native=False,
+)
